@@ -95,10 +95,13 @@ def config_h_path():
     return FALLBACK_CONFIG_H
 
 
-def _prune(keep=6):
+def _prune(keep=40, min_age=2 * 3600):
+    """Drop old cache entries: beyond `keep` newest, and only those untouched for `min_age` seconds
+    (another check may be running binaries from a younger one)."""
     if not os.path.isdir(CACHE):
         return
     ents = []
+    now = time.time()
     for e in os.listdir(CACHE):
         p = os.path.join(CACHE, e)
         try:
@@ -106,8 +109,9 @@ def _prune(keep=6):
         except OSError:
             pass
     ents.sort(reverse=True)
-    for _, p in ents[keep:]:
-        shutil.rmtree(p, ignore_errors=True)
+    for mt, p in ents[keep:]:
+        if now - mt > min_age:
+            shutil.rmtree(p, ignore_errors=True)
 
 
 class BuildError(Exception):
